@@ -18,6 +18,7 @@ type singlePrinterWriter struct {
 }
 
 func NewSinglePrinterWriter(writer io.Writer) PrinterWriter {
+	writer = verifWrapWriter(writer)
 	return &singlePrinterWriter{
 		bufferedWriter: bufio.NewWriter(writer),
 	}
